@@ -338,6 +338,11 @@ func genWKB(out *bufio.Writer, r *vproto.Rng, tier string) {
 			for _, c := range []uint32{1, 2, 1025, 1 << 12, 1 << 16, 1 << 20, 1 << 24, 1 << 28, 1 << 31, 0xffffffff} {
 				w.all(hdr(code, c, le))
 			}
+			// lying counts of every magnitude between "one chunk" and 2^16 (a reader that trusts
+			// counts below some threshold wastes threshold*elemsize bytes on a 9-byte message)
+			for _, c := range []uint32{1023, 1024, 1536, 2047, 2048, 2049, 2100, 2500, 3000, 3500, 4095, 4097, 5000, 6000, 8191, 8192, 10000, 12000, 16384, 20000, 32768, 50000, 65535} {
+				w.wkb(hdr(code, c, le))
+			}
 		}
 	}
 	w.all(nil)
